@@ -71,6 +71,9 @@ func c34gen(out string) {
 	// 1. structure: well-formed and every single fact broken, for the typical scripts
 	for _, cs := range few {
 		emit(goodS(), true, cs...)
+		variant = 1 // well-formed request delivered at the last block before the fallback becomes valid (height = NVB-1)
+		emit(goodS(), true, cs...)
+		variant = -1
 		for _, f := range c34SFields {
 			for variant = 0; variant < 4; variant++ { // every concrete way of breaking the fact
 				s := goodS()
@@ -192,6 +195,11 @@ func c34run(casesPath, out string) {
 		kit.Must(err)
 		mutateStructure(r, cs.V, nr, q.S, n.Key.PublicKey().GetScriptHash(), otherMultisig)
 		height := uint32(100)
+		for _, a := range nr.FallbackTransaction.GetAttributes(transaction.NotValidBeforeT) {
+			if nvb, ok := a.Value.(*transaction.NotValidBefore); ok && q.S["fbFresh"] && cs.V == 1 && nvb.Height > 0 {
+				height = nvb.Height - 1 // boundary on the accepting side
+			}
+		}
 		if !q.S["fbFresh"] {
 			for _, a := range nr.FallbackTransaction.GetAttributes(transaction.NotValidBeforeT) {
 				if nvb, ok := a.Value.(*transaction.NotValidBefore); ok {
